@@ -15,27 +15,27 @@ TRUST = ("independent SMILES reader and reference derivation in vmon/ (share no 
 CHECKS = {
     "C01": dict(
         technique="runtime monitoring: strict independent re-read + valence recount of every decoder output; in-call graph-invariant (M1), writer (M2) and derivation-contract (M3) monitors; RDKit sanitizer on robust-alphabet outputs",
-        text="held on every decoder execution of the run: all strings up to length 4-5 over four symbol sets under five tables, live / ring-dense / many-fragment strings under random, neighbouring and caller-mutated tables (dict subclasses, huge capacities, '?' anywhere), mutated dataset strings, repeated and flag-variant calls; every output re-read strictly and its valences recounted against the table the API reports. Known finding F1 keyed by mechanism.",
+        text="held on every decoder execution of the run: all strings up to length 4-5 over four symbol sets under five tables, live / ring-dense / many-fragment strings under random, neighbouring and caller-mutated tables (dict subclasses, huge capacities, '?' anywhere), mutated dataset strings, repeated and flag-variant calls; every output re-read strictly and its valences recounted against the table the API reports. Known finding F1 keyed by mechanism. Scale: strings of several thousand symbols, tables listing hundreds of atom kinds.",
         ref="5 C01"),
     "C02": dict(
         technique="runtime monitoring with a reference model: every decoder call is compared at molecule level with an independent executable rendering of the documented derivation",
-        text="the quantifier's own bounded part is enumerated (all strings up to length 4-5 over four symbol sets covering every rule and state, five tables), live / mutated / index-sensitive strings beyond, soak phase after 140k distinct symbols; atoms, bonds, orders, stereo marks and written neighbour order compared with the reference derivation; other flag combinations must return the same text. Known finding F1.",
+        text="the quantifier's own bounded part is enumerated (all strings up to length 4-5 over four symbol sets covering every rule and state, five tables), live / mutated / index-sensitive strings beyond, soak phase after 140k distinct symbols; atoms, bonds, orders, stereo marks and written neighbour order compared with the reference derivation; other flag combinations must return the same text. Known finding F1. Scale: single fragments of 4 200-9 000 symbols, nesting 120-300 deep.",
         ref="5 C02"),
     "C03": dict(
         technique="runtime monitoring: round trip through the real encoder and decoder, both sides read by an independent SMILES reader and compared atom by atom; M1 recount of the encoder's graph, M2 writer monitor",
-        text="held on every round trip of the run: DFS and random-spanning-tree spellings of random molecules (digits after branches, all-parenthesised neighbours, zero-padded numbers, %nn labels) under random tables, aromatic systems with their aromatic assignment compared, macrocycles / long branches with 1-3 index symbols (spans below 16^3), every ring/branch symbol family, many-fragment molecules, dataset molecules in original and re-spelled form; both sides read by the independent reader.",
+        text="held on every round trip of the run: DFS and random-spanning-tree spellings of random molecules (digits after branches, all-parenthesised neighbours, zero-padded numbers, %nn labels) under random tables, aromatic systems with their aromatic assignment compared, macrocycles / long branches with 1-3 index symbols (spans below 16^3), every ring/branch symbol family, many-fragment molecules, dataset molecules in original and re-spelled form; both sides read by the independent reader. Scale: random molecules of 150 / 400 atoms, up to 40 fragments; hydrogens written as atoms; upper-case ':' spellings of aromatic systems.",
         ref="5 C03"),
     "C04": dict(
         technique="runtime monitoring: neighbour-order parity oracle over independently read input and output (no chemistry), stereo-dense workload",
-        text="held on every stereo round trip of the run: chiral centres (ring-opening, ring-closing, both, first atom, with H, hypervalent with 5-6 neighbours) and double-bond marks incl. either end of ring closures, judged by neighbour-order parity on independently read input and output, under all encoder flag combinations and repeated translation.",
+        text="held on every stereo round trip of the run: chiral centres (ring-opening, ring-closing, both, first atom, with H, hypervalent with 5-6 neighbours) and double-bond marks incl. either end of ring closures, judged by neighbour-order parity on independently read input and output, under all encoder flag combinations and repeated translation. Scale: molecules of 60 / 200 atoms.",
         ref="5 C04"),
     "C05": dict(
         technique="runtime monitoring: exact perfect-matching oracle on every call of the matching routine (M4) and on generator-known pi-demand sets; order-independence over 4-8 spellings",
-        text="four oracles from strongest to weakest input class (matching routine on every call, standard kinds with completeness, anchored charged/radical kinds, exotic kinds by locality); fullerene and other cubic cages, poly-aryl and linked systems, isotope-labelled atoms, multi-fragment and large (several hundred pi-atoms) inputs; order independence over 3-8 spellings. Known findings F3 (with rate ceiling) and F4 keyed by mechanism.",
+        text="four oracles from strongest to weakest input class (matching routine on every call, standard kinds with completeness, anchored charged/radical kinds, exotic kinds by locality); fullerene and other cubic cages, poly-aryl and linked systems, isotope-labelled atoms, multi-fragment and large (several hundred pi-atoms) inputs; order independence over 3-8 spellings. Known findings F3 (with rate ceiling) and F4 keyed by mechanism. Benzenoids (random polyhexes, peri-condensed, Kekulean or not), upper-case ':' spellings, inputs with more than a thousand pi-atoms.",
         ref="5 C05"),
     "C06": dict(
         technique="runtime monitoring: independent valence count against the table reported by the API; molecules generated around capacity; table switched between calls with cache probes (M5)",
-        text="held on every (table, molecule) pair of the run: margins -3..+3 around the capacity, charged / explicit-H / '?'-only atoms, kekulizable aromatic systems; tables set the hostile way (caller dict types, later mutation, rejected update after set, presets by name); strict verdict re-judged after a table switch and against the table the API reports.",
+        text="held on every (table, molecule) pair of the run: margins -3..+3 around the capacity, charged / explicit-H / '?'-only atoms, kekulizable aromatic systems; tables set the hostile way (caller dict types, later mutation, rejected update after set, presets by name); strict verdict re-judged after a table switch and against the table the API reports. Chirality and stereo bonds on the molecules (also above capacity), molecules of 80 / 300 atoms.",
         ref="5 C06"),
     "C07": dict(
         technique="runtime monitoring: alphabet content against a model, every symbol decoded alone, random strings over the alphabet judged by the C01 oracle, tables switched between calls",
@@ -43,35 +43,35 @@ CHECKS = {
         ref="5 C07"),
     "C08": dict(
         technique="runtime monitoring: exception tap at the API boundary (M9), sys.monitoring logical-step bound (M7), global-table probe (M5); atheris coverage-guided fuzzing in the thorough tier",
-        text="held on every hostile decoder call of the run under all four flag combinations plus an atheris campaign; termination decided in line events (sys.monitoring), never wall clock - a fuzz input on which the fuzzing process stalls is handed back and judged under the step bound. Known finding F5.",
+        text="held on every hostile decoder call of the run under all four flag combinations plus an atheris campaign; termination decided in line events (sys.monitoring), never wall clock - a fuzz input on which the fuzzing process stalls is handed back and judged under the step bound. Known finding F5. Both bounds: line events (M7) and CPU time of the single-threaded worker (time spent inside one statement, e.g. a backtracking regular expression); presets and reported table probed around every call; soak of 20 000 distinct symbols under a custom table.",
         ref="5 C08"),
     "C09": dict(
         technique="runtime monitoring: exception tap at the API boundary (M9), sys.monitoring logical-step bound (M7), matching judge (M4) for the F3 mechanism key; atheris in the thorough tier",
-        text="held on every hostile encoder call of the run under all four flag combinations (incl. large aromatic inputs of several hundred pi-atoms) plus an atheris campaign; same termination rule as C08. Known findings F9, F3.",
+        text="held on every hostile encoder call of the run under all four flag combinations (incl. large aromatic inputs of several hundred pi-atoms) plus an atheris campaign; same termination rule as C08. Known findings F9, F3. CPU-time bound as in C08; any element in aromatic positions; the same polycyclic fragment replicated 260-420 times.",
         ref="5 C09"),
     "C10": dict(
         technique="runtime monitoring: emitted tokens judged by the reference symbol grammar, decode + re-encode fixpoint, paired spellings from two PRNG streams",
-        text="held on every accepted SMILES of the run: extreme atoms (118 elements, charges to +-101, isotopes to 1000, H to 9, zero-padded numbers), index lengths 1-3, every symbol family, aromatic systems under tight tables, first sight of a symbol under another table; emitted tokens judged by the reference grammar, decode + re-encode fixpoint, questionable ring closures, molecules with >= 100 rings. Known finding F1 (fixpoint fails once the decoder has to write ring label 100).",
+        text="held on every accepted SMILES of the run: extreme atoms (118 elements, charges to +-101, isotopes to 1000, H to 9, zero-padded numbers), index lengths 1-3, every symbol family, aromatic systems under tight tables, first sight of a symbol under another table; emitted tokens judged by the reference grammar, decode + re-encode fixpoint, questionable ring closures, molecules with >= 100 rings. Known finding F1 (fixpoint fails once the decoder has to write ring label 100). Long branches and rings inside other branches (inner length 15-3 900, depth 1-3), molecules of 150 / 400 atoms.",
         ref="5 C10"),
     "C11": dict(
         technique="runtime monitoring: API histories; each final translation compared with the reference derivation under the reported table and with a fresh interpreter forked from an untouched zygote, hash seeds 0-4",
-        text="held on every history of the run (5-60 calls: warm caches, table walks, rejected updates incl. non-string keys, caller-side mutation, utility calls); 9 probes each compared with the reference derivation under the reported table and with a fresh interpreter forked from an untouched zygote, hash seeds 0-4; soak phase.",
+        text="held on every history of the run (5-60 calls: warm caches, table walks, rejected updates incl. non-string keys, caller-side mutation, utility calls); 9 probes each compared with the reference derivation under the reported table and with a fresh interpreter forked from an untouched zygote, hash seeds 0-4; soak phase. One fresh child per probe; twin spellings of benzenoids; probes with 100-160 rings; refused strings that fail deep inside nested branches.",
         ref="5 C11"),
     "C12": dict(
         technique="runtime monitoring: history checker against a dict/set model of the configuration API; every object crossing the boundary is really mutated; atomicity observed before/after each rejected update",
-        text="held on every history of the run against a dict/set model (types compared, not only values); invalid updates of every documented kind incl. the get-tweak-set form (table in force with one entry made invalid), fresh probes after each rejection; known finding F12 keyed by the model's shadow of the caller's own mutations.",
+        text="held on every history of the run against a dict/set model (types compared, not only values); invalid updates of every documented kind incl. the get-tweak-set form (table in force with one entry made invalid), fresh probes after each rejection; known finding F12 keyed by the model's shadow of the caller's own mutations. Tables and invalid updates in every caller dict type (OrderedDict, defaultdict, Counter, subclass).",
         ref="5 C12"),
     "C13": dict(
         technique="runtime monitoring: differential outcome check of [nop] placements (forced into every index position, after every branch/ring symbol, fragment edges, random, exhaustive single insertions) with a tokenizer tap (M6)",
-        text="held on every [nop] variant of the run (forced into every index position, after every branch/ring symbol, fragment edges, random, exhaustive single insertions, runs of 300-5000) of base strings incl. raising ones, under all flag combinations, after a 140k-symbol soak, plus padding round trips through the encoding utilities with pipeline-style vocabularies.",
+        text="held on every [nop] variant of the run (forced into every index position, after every branch/ring symbol, fragment edges, random, exhaustive single insertions, runs of 300-5000) of base strings incl. raising ones, under all flag combinations, after a 140k-symbol soak, plus padding round trips through the encoding utilities with pipeline-style vocabularies. Chains nested 300-4 000 deep with padding; bases of 400-1 200 symbols.",
         ref="5 C13"),
     "C14": dict(
         technique="runtime monitoring: utilities compared with the harness's own tokenisation on random well-formed strings; tokenizer tap (M6) on the decoder",
-        text="held on every string / collection of the run incl. Unicode, control characters, empty bodies, str-subclass elements, sets / dict keys / iterators as collections, and the same strings again after they went through the encoding utilities and the decoder; decoder token tap and cited tokens.",
+        text="held on every string / collection of the run incl. Unicode, control characters, empty bodies, str-subclass elements, sets / dict keys / iterators as collections, and the same strings again after they went through the encoding utilities and the decoder; decoder token tap and cited tokens. Scale: strings of 1 000-6 000 symbols, collections of 100-400 strings; encoder outputs under every flag combination.",
         ref="5 C14"),
     "C15": dict(
         technique="runtime monitoring: 10-line reference model of the encodings, inverse and batch laws, error paths",
-        text="held on every (vocabulary, string, pad, enc_type) case of the run: shuffled insertion order, one vocabulary object changed in place, defaults and keyword forms, batch laws, error paths (missing symbol, bad enc_type, ragged vector, label outside 0..n-1).",
+        text="held on every (vocabulary, string, pad, enc_type) case of the run: shuffled insertion order, one vocabulary object changed in place, defaults and keyword forms, batch laws, error paths (missing symbol, bad enc_type, ragged vector, label outside 0..n-1). Scale: vocabularies of 300-2 000 symbols, strings of 100-600 symbols, pads to 1 000, batches of 20.",
         ref="5 C15"),
     "C16": dict(
         technique="runtime monitoring, exhaustive over the stated finite space: all n < 65536, all 37^3 symbol triples, every Q < 4096 through crafted ring/branch strings and macrocycle / long-branch SMILES",
@@ -79,15 +79,15 @@ CHECKS = {
         ref="5 C16"),
     "C17": dict(
         technique="runtime monitoring: attribution entries checked against the output text, the input tokenisation and the reference derivation's frame stack",
-        text="held on every decoder and encoder input of the run: multi-fragment (many fragments), [nop], nested branches, fragments ending inside index reads, compatible=True; entries checked against the output text, the input tokenisation and the reference derivation's frame stack (exact attribution lists).",
+        text="held on every decoder and encoder input of the run: multi-fragment (many fragments), [nop], nested branches, fragments ending inside index reads, compatible=True; entries checked against the output text, the input tokenisation and the reference derivation's frame stack (exact attribution lists). Scale: molecules of 120 / 300 atoms, 40 fragments.",
         ref="5 C17"),
     "C18": dict(
         technique="runtime monitoring: differential check against the harness's own moderniser; reachedness of legacy symbols decided by the reference derivation",
-        text="held on every mixed string of the run covering all 21 legacy branch/ring forms and the legacy atom spellings, six tables, empty fragments, caller vocabularies built on the library's alphabet; differential against the harness's own moderniser, reachedness decided by the reference derivation of the raw string.",
+        text="held on every mixed string of the run covering all 21 legacy branch/ring forms and the legacy atom spellings, six tables, empty fragments, caller vocabularies built on the library's alphabet; differential against the harness's own moderniser, reachedness decided by the reference derivation of the raw string. Scale: strings of 200-2 500 tokens, padding runs of 300-5 000 inside the strings.",
         ref="5 C18"),
     "C19": dict(
         technique="runtime monitoring under thread stress: barrier start, 1 us switch interval, sys.monitoring yield injection; every result compared with the same call alone in a forked fresh interpreter; overlaps and in-repo thread switches measured",
-        text="held on every concurrent call of the run: rounds of 2-16 threads, barrier start, 1 us switch interval, yield injection focused on one source file at a time, novel symbols, ~37 never-seen inputs per round started by all threads at once or staggered; each result compared with the same call alone in a forked fresh interpreter; overlaps and in-repo thread switches measured (floors).",
+        text="held on every concurrent call of the run: rounds of 2-16 threads, barrier start, 1 us switch interval, yield injection focused on one source file at a time, novel symbols, ~37 never-seen inputs per round started by all threads at once or staggered; each result compared with the same call alone in a forked fresh interpreter; overlaps and in-repo thread switches measured (floors). Refused calls (errors met 250-600 branches deep) in every thread; serial truth from one fresh child per job.",
         ref="5 C19"),
 }
 
